@@ -47,6 +47,13 @@ inductive Outcome (α : Type) where
   | panic (msg : String)
 deriving Repr
 
+/-- `for (a, b) in v.iter_mut().zip(w.iter()) { body }`: the elements of `v` that have a partner in `w` are replaced by what
+    the body makes of them, the others stay -/
+def vecZipMut {α β : Type} (f : α → β → α) : List α → List β → List α
+  | [], _ => []
+  | as, [] => as
+  | a :: as, b :: bs => f a b :: vecZipMut f as bs
+
 /-- `for x in &v { body }` on the state the body changes: a left fold over the elements -/
 def forEach {α σ : Type} (l : List α) (init : σ) (body : α → σ → σ) : σ :=
   l.foldl (fun s x => body x s) init
